@@ -64,6 +64,19 @@ LOCALE_POOL = ["en", "fr", "de", "it", "pt-BR", "zh-Hant", "es-419"]
 NS_POOL = ["common", "home", "admin_panel", "a"]
 
 
+def put_file(path, content):
+    try:
+        with open(path, encoding="utf-8") as fh:
+            if fh.read() == content:
+                return
+    except (OSError, UnicodeDecodeError):
+        pass
+    tmp = path + ".tmp%d" % os.getpid()
+    with open(tmp, "w", encoding="utf-8") as fh:
+        fh.write(content)
+    os.replace(tmp, path)
+
+
 class Project:
     """locales[0] is the default; units: {ns or None: {locale: tree}}; tree: list of (key, node);
     node: {"kind": plain|other|sub|absent|null, "json": value, "text": str, "sub": tree}"""
@@ -71,9 +84,12 @@ class Project:
     def __init__(self, locales, namespaces, inherits, units):
         self.locales, self.namespaces, self.inherits, self.units = locales, namespaces, inherits, units
 
-    def write(self, d):
-        shutil.rmtree(d, ignore_errors=True)
-        os.makedirs(os.path.join(d, "locales"))
+    def write(self, d, clean=True):
+        """clean=False (probe crates): files are only rewritten when their content changes and nothing is removed
+        while another run of the same seed may be compiling the same directory"""
+        if clean:
+            shutil.rmtree(d, ignore_errors=True)
+        os.makedirs(os.path.join(d, "locales"), exist_ok=True)
         toml = ['[package]', 'name = "probe"', 'version = "0.1.0"', 'edition = "2021"', '',
                 '[package.metadata.leptos-i18n]', 'default = %s' % json.dumps(self.locales[0]),
                 'locales = %s' % json.dumps(self.locales)]
@@ -81,8 +97,9 @@ class Project:
             toml.append('namespaces = %s' % json.dumps(self.namespaces))
         if self.inherits:
             toml.append('inherits = { %s }' % ", ".join("%s = %s" % (json.dumps(k), json.dumps(v)) for k, v in self.inherits.items()))
-        with open(os.path.join(d, "Cargo.toml"), "w") as fh:
-            fh.write("\n".join(toml) + "\n")
+        if clean:
+            put_file(os.path.join(d, "Cargo.toml"), "\n".join(toml) + "\n")
+        keep = set()
         for ns, per_locale in self.units.items():
             for loc, tree in per_locale.items():
                 if ns is None:
@@ -90,19 +107,29 @@ class Project:
                 else:
                     os.makedirs(os.path.join(d, "locales", loc), exist_ok=True)
                     p = os.path.join(d, "locales", loc, ns + ".json")
-                with open(p, "w", encoding="utf-8") as fh:
-                    json.dump(tree_json(tree), fh, ensure_ascii=((len(loc) + len(ns or "")) % 2 == 0), indent=1)
+                keep.add(p)
+                put_file(p, json.dumps(tree_json(tree), ensure_ascii=((len(loc) + len(ns or "")) % 2 == 0), indent=1))
+        if not clean:
+            for root, _, files in os.walk(os.path.join(d, "locales")):
+                for f in files:
+                    if os.path.join(root, f) not in keep:
+                        os.remove(os.path.join(root, f))
 
     def plain_paths(self, ns, loc):
+        """(key path, text) of the plain keys of a locale that the generated code has an accessor for, i.e. that the
+        default locale defines too (a key only a non-default locale has is a surplus key: warned about, never read)"""
         out = []
 
-        def walk(tree, path):
+        def walk(tree, dtree, path):
+            d = dict(dtree)
             for k, node in tree:
+                if k not in d:
+                    continue
                 if node["kind"] == "plain":
                     out.append((path + [k], node["text"]))
-                elif node["kind"] == "sub":
-                    walk(node["sub"], path + [k])
-        walk(self.units[ns][loc], [])
+                elif node["kind"] == "sub" and d[k]["kind"] == "sub":
+                    walk(node["sub"], d[k]["sub"], path + [k])
+        walk(self.units[ns][loc], self.units[ns][self.locales[0]], [])
         return out
 
 
@@ -215,6 +242,12 @@ def derive_tree(rng, dtree, pool, default_texts):
     return tree
 
 
+def add_surplus(rng, tree):
+    """a key the default locale does not have (surplus key: a warning, its text is never read nor indexed)"""
+    t = gen_text(rng)
+    tree.append(("x_surplus", {"kind": "plain", "json": t, "text": t}))
+
+
 def fix_foreign(tree, root=None):
     """a `$t(path)` whose target is absent or null in this locale is an error of the parser: such keys are
     left out (they default to the default locale's value)"""
@@ -257,6 +290,8 @@ def gen_project(rng, max_locales=4, force_ns=None):
         for loc in locales[1:]:
             per[loc] = derive_tree(rng, dtree, [], dtexts)
             fix_foreign(per[loc])
+            if rng.random() < 0.1:
+                add_surplus(rng, per[loc])
         units[ns] = per
     return Project(locales, namespaces, inherits, units)
 
@@ -606,21 +641,19 @@ def effective_locale(proj, ns, loc, path):
 
 
 def write_probe(proj, d, touch_list, name):
-    proj.write(d)   # Cargo.toml (replaced below) + locales/
+    proj.write(d, clean=False)   # locales/
     i18n = ['default = %s' % json.dumps(proj.locales[0]), 'locales = %s' % json.dumps(proj.locales)]
     if proj.namespaces:
         i18n.append('namespaces = %s' % json.dumps(proj.namespaces))
     if proj.inherits:
         i18n.append('inherits = { %s }' % ", ".join("%s = %s" % (json.dumps(k), json.dumps(v)) for k, v in proj.inherits.items()))
-    with open(os.path.join(d, "Cargo.toml"), "w") as fh:
-        fh.write(CARGO_TOML.format(repo=REPO, i18n="\n".join(i18n), name=name))
+    put_file(os.path.join(d, "Cargo.toml"), CARGO_TOML.format(repo=REPO, i18n="\n".join(i18n), name=name))
     arms = []
     for i, (ns, loc, path, args) in enumerate(touch_list):
         keys = ".".join(([ns] if ns else []) + path)
         arms.append("        %d => td!(Locale::%s, %s%s).into_any()," % (i, ident(loc), keys, args))
     os.makedirs(os.path.join(d, "src"), exist_ok=True)
-    with open(os.path.join(d, "src", "main.rs"), "w") as fh:
-        fh.write(MAIN_RS.format(arms="\n".join(arms)))
+    put_file(os.path.join(d, "src", "main.rs"), MAIN_RS.format(arms="\n".join(arms)))
     lock = os.path.join(d, "Cargo.lock")
     if not os.path.exists(lock):
         shutil.copy(os.path.join(core.HARNESS, "Cargo.lock"), lock)
@@ -892,7 +925,7 @@ def structured_project(rng, nloc=3, nns=0, depth=1, mode="rich", inherit=True, a
                 tree.append(("f0", {"kind": "other", "json": "$t(%s%s)" % ((ns + ":") if ns else "", ".".join(prefix + ["k0"])),
                                     "target": prefix + ["k0"]}))
                 if mode == "small":
-                    for j in range(rng.choice([1, 2, 4])):
+                    for j in range(shared["extra"]):          # the same keys in every locale
                         t2 = text(li, rng.choice(CLASSES))
                         tree.append(("k%d" % (j + 1), {"kind": "plain", "json": t2, "text": t2}))
             tree += var_values(prefix)
@@ -905,9 +938,7 @@ def structured_project(rng, nloc=3, nns=0, depth=1, mode="rich", inherit=True, a
             tree.append(("f0", {"kind": "other", "json": "%s$t(%s%s)" % ("", (ns + ":") if ns else "", ".".join(prefix + ["k0"])),
                                 "target": prefix + ["k0"]}))                                      # foreign key copying k0
             for c in CLASSES:
-                if li in ascii_idx and c == "empty":
-                    continue
-                t = text(li, c)
+                t = text(li, c)                      # (ASCII-only locales get a plain word under the same key)
                 tree.append(("q_" + c, {"kind": "plain", "json": t, "text": t}))
             tree.append(("sh", {"kind": "plain", "json": shared["all" if li == 0 or rng.random() < 0.5 else "others"],
                                 "text": None}))
@@ -955,6 +986,7 @@ def structured_project(rng, nloc=3, nns=0, depth=1, mode="rich", inherit=True, a
         uid[0] += 1
         shared = {"all": "shared with default %d" % uid[0], "others": "shared by the others %d" % uid[0]}
         one = text(-1, focus) if focus != "empty" else ""
+        shared["extra"] = rng.choice([1, 2, 4])
         shared["single"] = {li: (one if (li == 0 or rng.random() < 0.6) else text(li, focus)) for li in range(nloc)}
         for li in ascii_idx:
             shared["single"][li] = "plain %d" % uid[0]
